@@ -132,6 +132,10 @@ struct Writer {
     /// The ID of the currently active file.
     active_fileid: u64,
 
+    /// The lowest ID that was never given to a file. An ID is used up as soon as we try to
+    /// create a file with it, so a file left behind by a failed merge is never in the way.
+    next_fileid: u64,
+
     /// The number of bytes that have been written to the currently active file.
     written_bytes: u64,
 }
@@ -187,6 +191,7 @@ impl Bitcask {
                 active_fileid,
             ))?)?,
             active_fileid,
+            next_fileid: active_fileid + 1,
             written_bytes: 0,
         }));
 
@@ -402,6 +407,11 @@ impl Writer {
         key: Bytes,
         value: Option<Bytes>,
     ) -> Result<KeyDirEntry, Error> {
+        // The active file must be the newest file, otherwise a restart would order the new entry
+        // before older ones. It is not when a merge or a previous switch failed half-way.
+        if self.next_fileid > self.active_fileid + 1 {
+            self.new_active_datafile(self.next_fileid)?;
+        }
         // Append log entry
         let datafile_entry = DataFileEntry { tstamp, key, value };
         let index = self.writer.append(&datafile_entry)?;
@@ -446,7 +456,7 @@ impl Writer {
         // Check if active file size exceeds the max limit. This must be done as the last step of
         // the writing process, otherwise we risk corrupting the storage states.
         if self.written_bytes > self.ctx.conf.max_file_size {
-            self.new_active_datafile(self.active_fileid + 1)?;
+            self.new_active_datafile(self.next_fileid)?;
         }
         Ok(keydir_entry)
     }
@@ -455,8 +465,8 @@ impl Writer {
     #[tracing::instrument(level = "debug", skip(self))]
     fn merge(&mut self) -> Result<(), Error> {
         let path = self.ctx.conf.path.as_path();
-        let min_merge_fileid = self.active_fileid + 1;
-        let mut merge_fileid = min_merge_fileid;
+        let mut merge_fileid = self.next_fileid;
+        self.next_fileid = merge_fileid + 1;
         debug!(merge_fileid, "new merge file");
 
         // Get the set of file ids to be merged
@@ -519,6 +529,7 @@ impl Writer {
                     merge_datafile_writer.get_ref().sync_all()?;
                     merge_hintfile_writer.sync()?;
                     merge_fileid += 1;
+                    self.next_fileid = merge_fileid + 1;
                     merge_pos = 0;
                     merge_datafile_writer =
                         BufWriter::new(log::create(utils::datafile_name(path, merge_fileid))?);
@@ -533,9 +544,13 @@ impl Writer {
             merge_hintfile_writer.sync()?;
         }
 
+        // Switch to an active file that is newer than the merge files before anything is removed,
+        // the current one may be among the merged files.
+        self.new_active_datafile(self.next_fileid)?;
+
         // Remove stale files from system and storage statistics
+        let path = self.ctx.conf.path.as_path();
         for id in &fileids_to_merge {
-            self.ctx.stats.remove(id);
             if let Err(e) = fs::remove_file(utils::hintfile_name(path, *id)) {
                 if e.kind() != io::ErrorKind::NotFound {
                     return Err(e.into());
@@ -546,15 +561,16 @@ impl Writer {
                     return Err(e.into());
                 }
             }
+            self.ctx.stats.remove(id);
         }
-
-        self.new_active_datafile(merge_fileid + 1)?;
         Ok(())
     }
 
     /// Updates the active file ID and open a new data file with the new active ID.
     #[tracing::instrument(level = "debug", skip(self))]
     fn new_active_datafile(&mut self, fileid: u64) -> Result<(), Error> {
+        // The ID is used up even when the file can't be created
+        self.next_fileid = fileid + 1;
         // Only switch once the new file exists, a failure must leave the current one active
         self.writer = LogWriter::new(log::create(utils::datafile_name(
             self.ctx.conf.path.as_path(),
